@@ -9,6 +9,9 @@ pandapower.pypower.pfsoln:_split_p_for_gens_at_same_bus.
     (p_bus - sum of all machine setpoints) * w / sum(w): the deviation from the setpoint divided by the weight is the same for all of
     them, the PV gens at the bus keep their setpoints.
 The equalisation across buses is done by the Newton iteration (mismatch + slack_weights * slack): bounded native stand-in only.
+
+Added later: _run_pf_algorithm runs the Newton-Raphson solver whenever distributed_slack is set -- the shortcut for networks of reference buses
+only ignores the slack weights (run_dispatch).
 """
 from __future__ import annotations
 
